@@ -610,6 +610,10 @@ impl Family for C16 {
         gen_scn(rng).render()
     }
 
+    fn realtime(case: &str) -> bool {
+        Scn::parse(case).flavor != 0
+    }
+
     fn run(case: &str) -> Outcome {
         let scn = Scn::parse(case);
         stat(&format!("class_{}", scn.class));
